@@ -57,6 +57,9 @@ pub struct Sc {
     /// overwritten by the real one; 4 a failing call (missing input) first
     #[serde(default)]
     pub history: u8,
+    /// in-process runs: `-o` names the input file itself (optimise in place)
+    #[serde(default)]
+    pub in_place: bool,
 }
 
 #[derive(Clone, Copy)]
@@ -354,7 +357,8 @@ impl Property for C03 {
         };
         let pre = if d.coin("pre", 1, 3) { 1 + d.choose("prek", 2) as u8 } else { 0 };
         let history = if matches!(mode, Mode::InProcess) && d.coin("hist", 1, 4) { 1 + d.choose("histk", 4) as u8 } else { 0 };
-        Sc { circ, strategy, mode, pre, history }
+        let in_place = matches!(mode, Mode::InProcess) && d.coin("inplace", 1, 16);
+        Sc { circ, strategy, mode, pre, history, in_place }
     }
 
     fn execute(&self, sc: &Sc, sub: &str, exec: Decider, env: &Env) -> RunOut {
@@ -399,10 +403,14 @@ impl Property for C03 {
                     out.steps += 1;
                 }
                 let input = cli::prepare_input(&scratch, &header, &stmts, &InFault::None);
-                let outp = scratch.path("out.qasm");
-                cli::precreate(&outp, sc.pre, STALE_PROGRAM);
-                if sc.pre > 0 {
-                    out.probe("output_file_preexisting_longer_content");
+                let outp = if sc.in_place { input.clone() } else { scratch.path("out.qasm") };
+                if sc.in_place {
+                    out.probe("output_is_the_input_file");
+                } else {
+                    cli::precreate(&outp, sc.pre, STALE_PROGRAM);
+                    if sc.pre > 0 {
+                        out.probe("output_file_preexisting_longer_content");
+                    }
                 }
                 let mut argv: Vec<String> = vec!["quizx".into(), "opt".into(), input.to_string_lossy().to_string()];
                 argv.extend(strategy_args(sc.strategy));
@@ -731,6 +739,9 @@ impl Property for C03 {
         }
         if sc.history != 0 {
             c.push(Sc { history: 0, ..sc.clone() });
+        }
+        if sc.in_place {
+            c.push(Sc { in_place: false, ..sc.clone() });
         }
         if let Mode::ChildSys { plan, to_stdout } = &sc.mode {
             for p in cli::shrink_sysplan(plan) {
